@@ -118,6 +118,44 @@ fn sweep(ctx: &Ctx, name: &str, space: Space, cfgs: &[Prepared], lv: Levels) {
     }
 }
 
+/// Documents whose sizes sit just below, at and just above the implementation's thresholds.
+fn scaled_sweep(ctx: &Ctx, cfgs: &[Prepared]) {
+    let docs = scaled_docs(ctx.quick());
+    let quick = ctx.quick();
+    par_for(docs.len(), 1, |i| {
+        if ctx.over_time() {
+            return;
+        }
+        let (label, raw) = &docs[i];
+        for p in cfgs {
+            let input = adapt_to_encoding(raw, p.encoding);
+            let scheds = scaled_scheds(input.len(), quick);
+            for s in std::iter::once(&Sched::whole()).chain(scheds.iter()) {
+                let chunks = s.chunks(&input);
+                let rr = run(p, &chunks, true);
+                ctx.exec(rr.results.len());
+                ctx.validated(1);
+                ctx.states.insert(digest(&(i, &s.cuts.len(), s.cuts.first(), rr.events.len())));
+                if let Some(msg) = check_rr(p, &input, s, &rr) {
+                    let cfg = p.cfg.clone();
+                    let (inp, sc) = (input.clone(), s.clone());
+                    ctx.violation(format!("{label}: {msg}"), case_json(&cfg, &input, s), &|| {
+                        let p2 = Prepared::new(cfg.clone()).unwrap();
+                        check(&p2, &inp, &sc)
+                    });
+                }
+            }
+            ctx.nontrivial.insert(digest(&(&input, &p.cfg.handlers.len())));
+        }
+        if i % 97 == 3 {
+            ctx.sample(json!({"space": "scaled documents", "document": label, "configs": cfgs.len()}));
+        }
+    });
+    if !ctx.capped.load(std::sync::atomic::Ordering::Relaxed) {
+        ctx.level_done(&format!("{} scaled documents (sizes around 12, 32, 64, 256, 1024, 2048) x {} configs x fixed chunk sizes + cuts around the thresholds", docs.len(), cfgs.len()));
+    }
+}
+
 fn prep(menu: &[(&str, Vec<HSpec>)], pick: &[&str], strict: &[bool], enc: &str) -> Vec<Prepared> {
     let mut v = vec![];
     for (name, hs) in menu {
@@ -151,6 +189,12 @@ pub fn run_check(ctx: &Ctx) -> i32 {
         .map(|(_, hs)| Prepared::new(Cfg { adjust_charset: true, ..Cfg::with(hs.clone()).strict(false) }).unwrap())
         .collect();
     sweep(ctx, &format!("7 charset-declaring prefixes x F<={} x 4 configs with adjust_charset_on_meta_tag x L0,L1,LB", if ctx.quick() { 2 } else { 3 }), Space::MetaFrags { k, max: if ctx.quick() { 2 } else { 3 } }, &meta_cfgs, l1);
+    {
+        let mut sc = prep(&menu, &["none", "doc-text", "el(a[b])", "everything"], &[false], "UTF-8");
+        sc.extend(prep(&menu, &["everything"], &[false], "windows-1252"));
+        sc.extend(prep(&menu, &["doc-text"], &[false], "Shift_JIS"));
+        scaled_sweep(ctx, &sc);
+    }
     if ctx.quick() {
         sweep(ctx, "F<=2 x full menu x strict{t,f} x L0,L1,L2(len<=14),LB,LE", Space::Frags { k, max: 2 }, &full, l12);
         sweep(ctx, "Fcore<=3 x full menu x L0,L1,LB", Space::Frags { k: F_CORE, max: 3 }, &full, l1);
